@@ -1,5 +1,5 @@
 """C04 — parsing is total; index/err discipline; the grammar as outcome tables of the three field parsers and the driver."""
-from ..rules import parser, data, normal, casts, summary, features
+from ..rules import parser, data, normal, casts, summary, features, beliefs
 
 EXPL = ("Decides: (1) SA-PANIC totality: every panic edge in the call-graph closure of the six generic parse entry points "
         "(from_bytes, from_bytes_with_last_index, from_str for plain and dual types) in release-like configurations is discharged "
@@ -41,6 +41,8 @@ def run(ctx):
         ctx.guard("C04", "tables", lambda: data.base64_tables(ctx, prog))
         ctx.guard("C04", "summaries", lambda: summary.check(ctx, prog, 'parser_state::|ParseErrorEither|::from_bytes|::from_str', floor=4))
         ctx.guard("C04", "path summaries", lambda: summary.check_paths(ctx, prog, 'parser_state::|ParseErrorEither|::from_bytes|::from_str', floor=0))
+        if c in ("dbg", "unsafe_dbg", "strict_dbg"):
+            ctx.guard("C04", "beliefs", lambda: beliefs.census(ctx, prog, beliefs.SCOPES["C04"][0], floor=beliefs.SCOPES["C04"][1]))
         if c == "unsafe":
             # every belief (invariant!) on the parse path is backed by a run-time check of the safe build: an unbacked one (say, a bound
             # on how much text a normalising parser may consume) panics in debug builds and is undefined behaviour under `unsafe`
